@@ -62,7 +62,7 @@ def main(argv=None) -> int:
     try:
         ctx = run_rules(prop, args.tier, repo)
         selftest = None
-        if args.tier == "thorough" and not args.no_selftest and hasattr(mod, "mutants"):
+        if args.tier == "thorough" and not args.no_selftest:
             from .sabotage import run_selftest
 
             selftest = run_selftest(prop, mod, repo, ctx)
